@@ -6,6 +6,8 @@ from lib import common as C
 from lib import pool
 from lib.runner import Outcome
 from impl import projfiles as PFI
+from impl import tomlcfg as TCF
+from impl import inicfg as INI
 
 ID = "C13"
 LEAN_TARGETS = ["CLModel.Props.C13"]
@@ -41,6 +43,28 @@ THEOREMS = [
     (M, "C13M.iter_eq_match_M_partial", "ProjectFilesM: enumeration = lookup for an existing localized file, PrefixOK discharged, SubMatches replaced by the pattern class"),
     (M, "C13M.validation_complete_M", "ProjectFilesM: validation mode yields every existing reference file a reference matcher matches (PrefixOK discharged)"),
     (M, "C13M.sub_class_witness", "witness: outside the sub class (reference '/r/**', l10n '/l/*') the enumeration yields '/l/a/b.ftl' while match('/l/a/b.ftl') is None"),
+    # ---- C13T: the TOML route (TOMLParser as a function of the toml.load dictionaries and the command-line env), composed with the enumeration
+    (M, "C13T.parse_raises_only", "TOMLParser.parse raises nothing but: ConfigNotFound(q) where q really is not a loadable file (with ignore_missing_includes only the top file itself), KeyError for a missing l10n/path/action key, ExcludeError, an exception of Matcher()/expand(), RecursionError for an include cycle"),
+    (M, "C13T.parse_total_welltyped", "parsing is total on well-typed dictionaries: if every file reads against the schema, parse returns a configuration or one of those Python exceptions"),
+    (M, "C13T.missing_child", "_processChild, exactly: a child whose parse raises ConfigNotFound is re-raised unless ignore_missing_includes, else skipped and the remaining entries are processed as if it were not there"),
+    (M, "C13T.child_error_propagates", "every other exception of a child's parse (KeyError, ExcludeError, ...) is never swallowed by ignore_missing_includes"),
+    (M, "C13T.parsed_node_from_file", "every ProjectConfig of the parsed graph (top, includes, excludes, any depth) is what ONE file says: path loadable, root = basepath against its directory, environ = its [env] overridden by the command line, paths = its [[paths]] one by one, rules = its compiled [[filters]], locales = its locales"),
+    (M, "C13T.paths_one_rule_each", "every [[paths]] table yields exactly one path rule, in order, with its own reference, test and locales (module None)"),
+    (M, "C13T.cmdline_env_wins", "env_override lifted through the whole parse: in every config of the graph a variable has the command-line value if given, else that config's own [env] value; a child inherits the command-line env only, nothing of the parent's [env]"),
+    (M, "C13T.all_locales_union", "ProjectConfig.all_locales = own locales + per-rule locales + all_locales of the INCLUDED configs; excludes never contribute"),
+    (M, "C13T.all_locales_gate", "the project gate `locale in project.all_locales` of ProjectFiles.__init__ on the tree built from a parsed config is membership in that config's all_locales"),
+    (M, "C13T.parse_fuel_irrelevant", "the model's bound on the nesting of includes plays no role once it suffices"),
+    (M, "C13T.enumerate_nodup_sorted", "parse + ProjectFiles as ONE function of (dictionaries, env, tree): each path at most once, sorted"),
+    (M, "C13T.enumerate_not_excluded", "... no enumerated path is matched by the ProjectFiles object built from the [[excludes]] configurations"),
+    (M, "C13T.enumerate_sound", "... every enumerated item is claimed by a [[paths]] table of a config that is the project's top file or reached through [[includes]] only, that config is what its file says, locale in the project's all_locales and enabled by the file's and the table's locales, the table's tests among the item's"),
+    (M, "C13T.enumerate_sound_matchers", "... and the table handed to ProjectFiles holds, under the rule's ids, exactly Matcher(d.l10n, env=c.environ, root=c.root).with_env({'locale': locale}) and Matcher(d.reference, env=c.environ, root=c.root) of that [[paths]] table d of that config c; the item's path is an existing non-excluded file the former matches, or the sub image of an existing non-excluded reference file the latter matches"),
+    (M, "C13T.projectFiles_ids_ok", "the matcher ids TC.toPFM writes into the path rules are ids of its own table: the composition cannot fail for bookkeeping reasons (newM never answers badId)"),
+    (M, "C13T.illtyped_witness", "witness: `locales = \"de\"` (a string) is reported as ill-typed: the hypothesis of parse_total_welltyped is needed"),
+    # ---- C13I: the legacy l10n.ini route (paths/ini.py)
+    (M, "C13I.ini_config_shape", "EnumerateApp(inipath, l10nbase).asConfig(): one ProjectConfig without path/root/children/excludes/rules, environ = {l10n_base: abspath(l10nbase)}, locales from the all-locales file, path rules = one per (base, dir) of directories(), in order"),
+    (M, "C13I.dirs_entry_two_rules", "every `dirs` word m of every loaded l10n.ini n (top or included, any depth) yields the rule l10n = {l10n_base}/{locale}/m/**, reference = n.base/m/locales/en-US/**, module = m (android-dtd test exactly for mobile/android/base), and every path rule is of that form"),
+    (M, "C13I.top_dirs_loaded", "the top l10n.ini is a node of the include tree with base = dirname(inipath)/depth and dirs = the white-space separated words of [compare] dirs"),
+    (M, "C13T.include_cycle_witness", "witness: a file that includes itself gives the model's RecursionError (the real parser raises RecursionError on the same file)"),
 ]
 PARTIAL = [
     "iter_complete_partial / last_rule_wins_partial need 'duplicates are duplicates' (matchers identified by the duplicate scan cover the same paths); false when two configs use the same pattern text with different [env] values after the first wildcard (known finding F14, witness dup_env_witness)",
@@ -49,13 +73,16 @@ PARTIAL = [
     "iter_eq_match and last_rule_wins_partial assume the Matcher.sub round trip (SubMatches: the l10n path computed from a reference match is matched by the l10n matcher) — a Matcher property (C12), checked on every generated project by the harness-side tables",
     "C13M (ProjectFilesM: the abstract matcher instantiated with the Matcher MODEL of C11/C12, matchers given as pattern texts): PrefixOK (a) and (c) are PROVED (prefix_contract, literal_contract); what is left as hypotheses of the restated theorems is: the prefix contains a '/' (decidable per matcher), a wildcard-free pattern has all its variables bound (forced: literal_unbound_witness), the F14 hypothesis hdup (unchanged), and — instead of SubMatches — SubClassOn: every reference FILE of the tree that a rule's reference matcher matches is a well-separated filling for which reference and l10n pattern are in the class of C11 sub_roundtrip_star_partial (top-level literals, *, **/, final **, first occurrences of fully bound variables, no {android_locale}); outside that class the round trip is false in general (sub_class_witness, C11 roundtrip_separator_witness) and is covered by correspondence + oracle only",
     "C13M supported class of the composed model: every matcher has a prefix, a compiling regex and no {android_locale} group (then match cannot raise, usable_match_ok); other tables are reported as unsupported by newM and skipped (counted) by the correspondence stream; a sub call that raises inside the class surfaces as MErr.sub",
-    "TOML syntax -> ProjectConfig is toml's; the model starts at the object graph (TOMLParser fields are checked against the generated TOML by construction); only processEnv's dict.update order is modelled (env_override)",
+    "C13T (TOML route): TOML SYNTAX stays toml's (the model starts at the dictionaries toml.load returns, sent to the driver as such); values of another type than the code expects (locales = \"de\", paths = 3, ...) are outside the model (Err.illTyped; counted as toml.skipped.ill-typed); re.compile of a filter key stays external (the model carries the source text of the compiled key, compared with rule['key'].pattern); the model's RecursionError for an include cycle is tied to Python's by the correspondence only (no pigeonhole proof that running out of files.length+1 levels implies a repeated file); symbolic links and non-normalised top-level paths through missing directories are outside the model",
+    "C13T.enumerate_sound / enumerate_sound_matchers pull the origin of an item (project, config reached through includes only, [[paths]] table, locale gates, tests, the two Matcher texts with the config's environ and root) back to the dictionaries; completeness, last-rule-wins and enumeration = lookup are NOT restated over the dictionaries: they apply to TC.projectFiles through C13M.newM_spec (the object is a ProjectFilesM object) with their hypotheses (F14, Rooted, LiteralBound, SubClassOn) stated on the matcher table",
 ]
 TRUSTED = [
     "hand-written model CLModel/Paths/ProjectFiles.lean of ProjectFiles.__init__/__iter__/iter_locale/iter_reference/_files/match, ProjectConfig.configs/all_locales, ConfigList.maybe_extend, mozpath.dirname, TOMLParser.processEnv (tied by the `pf.run`/`pf.env` correspondence on real temp directories)",
     "Matcher is abstract: prefix, realpath(prefix), pattern equality class, match relation and sub images are tabulated by the harness from the REAL Matcher objects for every path of the finite universe (files of the tree in os.walk order + ~12 absent paths + the l10n partners of reference paths); matchers are bound to the locale by the harness the way __init__ does (with_env)",
     "os.walk(base)+mozpath.join modelled as: the files whose path starts with base read as a directory (prefixes contain no '//', '.', '..' segments: asserted on every project), nothing for base ''; os.path.isfile = membership in the file list; dict = insertion-ordered association list; sorted = insertion sort on the unique keys",
     "the fused call: Matcher.sub(other, p) re-runs the pure Matcher.match(p) that _files/match just evaluated; the model reuses that result",
+    "C13T: hand-written model CLModel/Paths/TomlConfig.lean of TOMLParser (parse, load, processBasePath/Env/Paths/Filters/Includes/Excludes/Locales, _processChild), ProjectConfig.set_root/add_environment/add_paths/add_rules/_compile_rule/add_child/exclude/set_locales(deep)/configs/all_locales/same, posixpath.join/normpath/dirname/abspath, and of the harness step that binds matchers to the locale (TC.toPFM), tied to the real code by three streams: c13.toml.parse (real TOMLParser on real temp files vs the model on toml.load of the same files, canonical text of the whole graph incl. every stored Matcher's root/pattern/env, compiled filter keys, all_locales; or the exception), c13.toml.same, c13.toml.run (real ProjectFiles enumeration + lookups vs TC.projectFiles on dictionaries, env and tree); key names of the TOML schema are written in the model (they are the specification of the input), REFERENCE_LOCALE, the re: prefix and the re.escape table are generated",
+    "C13I: hand-written model CLModel/Paths/IniConfig.lean of paths/ini.py (L10nConfigParser.loadConfigs/addChild/directories/getFilters/allLocales, SourceTreeConfigParser.addChild, EnumerateApp/EnumerateSourceTreeApp.asConfig/_config_for_ini) from the PARSED ini sections — configparser (interpolation, case folding, DEFAULT section), exec of filter.py and util.parseLocales stay external: the harness reads the generated files with the real ConfigParser / parseLocales and sends the answers — tied by c13.ini.config (canonical ProjectConfig + which filter.py, or the exception) and c13.ini.run (real ProjectFiles enumeration of that config vs the model); str.split() is modelled for ASCII white space; the literal pieces of the two patterns and the Android module/test are generated from _config_for_ini",
     "C13M: hand-written composition CLModel/Paths/ProjectFilesM.lean (MEnv computed from PM.Matcher: match relation, sub via an injective code of (matcher, path) — decode_encode proved —, prefix, literal, Pattern equality classes, realpath(prefix) = trailing slashes stripped) tied to the real ProjectFiles by the `pfm.run` correspondence: the matcher table is sent as TEXTS (pattern, env, root, with_env binding; the temp root cut off like in the results; re-parsing the texts with the real Matcher must give the same Pattern/env back) and the result string is compared with the real enumeration + lookups",
 ]
 ASSUMPTIONS = [
@@ -66,7 +93,11 @@ LEVEL_TEXT = ("Lean 4 theorems over an executable transliteration of ProjectFile
               "in closed form; iter_locale, iter_reference, _files with the real os.walk semantics incl. dirname(prefix) for prefixes ending inside a "
               "name and the isfile shortcut for wildcard-free patterns only; match) for ALL matcher relations, file lists and config graphs: strictly increasing output, soundness w.r.t. enabled rules, "
               "nothing of an excluded config (unconditional), last rule wins, enumeration = lookup for existing localized files, completeness under "
-              "explicit hypotheses with negation witnesses; parser env overrides file env. The model is tied to the Python by differential runs of "
+              "explicit hypotheses with negation witnesses; parser env overrides file env. TOMLParser itself is modelled as a function of the "
+              "toml.load dictionaries and the command-line env (basepath, env, paths, filters, includes/excludes with ConfigNotFound handling, "
+              "locales) and composed with the enumeration into one function of (dictionaries, env, tree): what parse can raise, every config "
+              "of the graph is what its file says, command line overrides [env] in every config, all_locales = union over includes, and "
+              "sortedness / exclusion / origin of every item restated over the dictionaries. The model is tied to the Python by differential runs of "
               "generated TOML projects in real temp directories (all locales + reference validation mode, every file and ~12 absent paths looked up), "
               "and an oracle that knows the covered set by construction judges the implementation independently of the model")
 LEVEL_NOTE = ("trusted: Lean kernel; hand-written model validated by correspondence; Matcher abstract (tables from the real Matcher; Matcher itself is C11/C12) in the C13.* "
@@ -127,6 +158,45 @@ def gen_rule(rng, in_exclude=False):
 def basepath_of(file):
     depth = file.count("/")
     return "." if depth == 0 else "/".join([".."] * depth)
+
+
+BASE_SPELL = {0: [".", "./", "", "@R@", "zz/.."], 1: ["..", "../", "../.", "@R@", "../cfg/..", "./.."], 2: ["../..", "@R@/", "../../.", "../../cfg/.."]}
+FILTER_KEYS = [None, None, "key-1", "re:^ab+c$", "a.b c", ["k1", "re:x|y"], ["only"], []]
+
+
+def decorate(spec, graph, rng):
+    """the TOML route beyond paths: filters, other spellings of basepath and of include paths, configuration files that are
+    missing or not TOML (with and without ignore_missing_includes), `set_locales(deep=True)`"""
+    configs = spec["configs"]
+    spec["ignore"] = rng.random() < 0.35
+    for c, cf in configs.items():
+        if c not in spec["projects"] and rng.random() < (0.25 if spec["ignore"] else 0.04):
+            cf["missing"] = rng.choice(["absent", "garbled"])
+        if rng.random() < 0.35:
+            cf["basepath"] = rng.choice(BASE_SPELL[cf["file"].count("/")])
+        if rng.random() < 0.3:
+            fl = []
+            for _ in range(rng.randint(1, 3)):
+                pats = [PFI.LROOT[r["lroot"]] + r["ldir"] + rng.choice(["a.ftl", "**", "*.ftl"]) for r in cf["rules"]] + ["ref/x/*.ftl"]
+                path = rng.choice(pats) if rng.random() < 0.5 else [rng.choice(pats) for _ in range(rng.randint(0, 3))]
+                fl.append({"path": path, "key": rng.choice(FILTER_KEYS), "action": rng.choice(["error", "warning", "ignore"])})
+            cf["filters"] = fl
+        sp = {}
+        for x in list(cf["includes"]) + list(cf["excludes"]):
+            if rng.random() < 0.4:
+                sp[x] = rng.choice(["dot", "updown", "absolute", "var", "slashes"])
+        if sp:
+            cf["inc_spell"] = sp
+            if "var" in sp.values():
+                if rng.random() < 0.5:
+                    spec["parser_env"]["cfgroot"] = "@R@"
+                else:
+                    cf["env"]["cfgroot"] = "@R@"
+                    if rng.random() < 0.3:
+                        spec["parser_env"]["cfgroot"] = "@R@/."
+    if rng.random() < 0.1:
+        spec["deep"] = subset(rng, LOCALES + ["ja"])
+    return spec
 
 
 def finish(spec, rng):
@@ -221,6 +291,8 @@ def gen_project(rng):
     spec = {"projects": list(projects), "configs": configs, "parser_env": penv, "mergebase": rng.random() < 0.4,
             "files": files, "locales": list(LOCALES) + (["ja"] if rng.random() < 0.1 else []),
             "lookups": sorted(set(lookups) - set(files)), "vmerge": rng.random() < 0.1}
+    if rng.random() < 0.6:
+        decorate(spec, graph, rng)
     return finish(spec, rng)
 
 
@@ -286,6 +358,95 @@ def exclude_specs():
                     "locales": ["de", "fr"], "lookups": ["/l10n/de/toolkit/b.ftl", "/l10n/de/browser/b.ftl"]}
             specs.append(finish(spec, None))
     return specs
+
+
+def raw_of(spec):
+    """a generated project as a raw case of the TOML stream: {relative file: text}, top file, env, flags"""
+    files = {}
+    for c, cf in spec["configs"].items():
+        if cf.get("missing") == "absent":
+            continue
+        files[cf["file"]] = "[[paths]\n" if cf.get("missing") else PFI.toml_of(spec, c)
+    return {"files": files, "top": spec["configs"][spec["projects"][0]]["file"], "env": dict(spec["parser_env"]),
+            "ignore": bool(spec.get("ignore")), "deep": spec.get("deep")}
+
+
+FAULTS = ["drop-l10n", "drop-action", "drop-filter-path", "drop-child-path", "excludes-in-child", "self-include", "cycle",
+          "include-missing", "exclude-missing", "garble", "unbound-first", "unbound-inside", "wildcard", "delete"]
+
+
+def inject(case, fault, rng):
+    files = case["files"]
+    names = sorted(files)
+    if not names:
+        return False
+    f = rng.choice(names)
+    lines = files[f].split("\n")
+
+    def drop(prefix, repl=None):
+        idx = [i for i, l in enumerate(lines) if l.startswith(prefix)]
+        if not idx:
+            return False
+        i = rng.choice(idx)
+        if repl is None:
+            del lines[i]
+        else:
+            lines[i] = repl + lines[i][len(prefix):]
+        files[f] = "\n".join(lines)
+        return True
+
+    if fault == "drop-l10n":
+        return drop("    l10n =")
+    if fault == "drop-action":
+        return drop("    action =")
+    if fault == "drop-filter-path":
+        idx = [i for i, l in enumerate(lines) if l == "[[filters]]"]
+        if not idx:
+            return False
+        del lines[rng.choice(idx) + 1]
+        files[f] = "\n".join(lines)
+        return True
+    if fault == "drop-child-path":
+        idx = [i for i, l in enumerate(lines) if l in ("[[includes]]", "[[excludes]]")]
+        if not idx:
+            return False
+        i = rng.choice(idx) + 1
+        lines[i] = lines[i].replace("    path =", "    file =")
+        files[f] = "\n".join(lines)
+        return True
+    other = rng.choice(names)
+    add = {"excludes-in-child": ("excludes", "@R@/" + other), "self-include": ("includes", "@R@/" + f), "cycle": ("includes", "@R@/" + case["top"]),
+           "include-missing": ("includes", "@R@/gone.toml"), "exclude-missing": ("excludes", "@R@/cfg/gone.toml"),
+           "unbound-first": ("includes", "{nope}/" + other), "unbound-inside": ("includes", "@R@/cfg/{nope}/x.toml"),
+           "wildcard": ("excludes", "@R@/*.toml")}
+    if fault in add:
+        field, path = add[fault]
+        files[f] = files[f] + "[[%s]]\n    path = \"%s\"\n" % (field, path)
+        return True
+    if fault == "garble":
+        files[f] = "= not toml\n"
+        return True
+    if fault == "delete":
+        if f == case["top"] and rng.random() < 0.7:
+            return False
+        del files[f]
+        return True
+    return False
+
+
+def fault_cases(rng, n):
+    out = []
+    while len(out) < n:
+        spec = gen_project(rng)
+        case = raw_of(spec)
+        fs = [rng.choice(FAULTS) for _ in range(rng.choice([1, 1, 2]))]
+        done = [x for x in fs if inject(case, x, rng)]
+        if not done:
+            continue
+        case["name"] = "fault:" + "+".join(done)
+        case["ignore"] = rng.random() < 0.5
+        out.append(case)
+    return out
 
 
 def classify(v):
@@ -382,6 +543,123 @@ def run(ctx):
             out.samples.append({"spec": {k: specs[i][k] for k in ("projects", "files", "parser_env", "mergebase")},
                                 "configs": {c: PFI.toml_of(specs[i], c) for c in specs[i]["configs"]},
                                 "result_first_locale": readable(rr["impl"][0])[:900]})
+    # ---- third stream: TOMLParser on the toml.load dictionaries (`c13.toml.parse`), fourth: parsing composed with enumeration
+    plines, powners = [], []
+    rlines, rowners = [], []
+    for i, r in enumerate(res):
+        if "r" not in r:
+            continue
+        for j, l in enumerate(r["r"]["plines"]):
+            plines.append(l)
+            powners.append((i, j))
+        for j, l in enumerate(r["r"]["rlines"]):
+            rlines.append(l)
+            rowners.append((i, j))
+    pmodel = C.run_driver_parallel(plines) if ctx.model_ok else [None] * len(plines)
+    seen_bad = set(i for i, r in enumerate(res) if "r" in r and r["r"]["violations"])
+    for (i, j), mo in zip(powners, pmodel):
+        rr = res[i]["r"]
+        canon = rr["pimpl"][j].replace(rr["root"], "@R@")
+        out.evaluations += 1
+        out.count("toml.parse." + ("raised" if canon.startswith("err:") else "ok"))
+        if canon.startswith("err:"):
+            out.count("toml." + canon.split(" ")[0])
+        out.nontrivial.add(hashlib.sha1(("P" + canon).encode()).hexdigest()[:16])
+        if mo is None:
+            continue
+        mo = mo.replace(rr["root"], "@R@")
+        if mo.startswith("unsupported:"):
+            out.count("toml.skipped." + mo.split(":", 1)[1])
+            continue
+        if mo != canon and i not in seen_bad:
+            seen_bad.add(i)
+            out.disagreements.append({"op": "c13.toml.parse", "spec": specs[i], "impl": TCF.canon_readable(canon)[:1500],
+                                      "model": TCF.canon_readable(mo)[:1500]})
+    rmodel = C.run_driver_parallel(rlines) if ctx.model_ok else [None] * len(rlines)
+    for (i, j), mo in zip(rowners, rmodel):
+        if mo is None:
+            continue
+        canon = res[i]["r"]["impl"][j]
+        if mo.startswith("unsupported:"):
+            out.count("toml.run.skipped." + mo.split(":", 1)[1].split("-")[0])
+            continue
+        out.evaluations += 1
+        out.count("toml.run.compared")
+        if mo != canon and i not in seen_bad:
+            seen_bad.add(i)
+            out.disagreements.append({"op": "c13.toml.run", "spec": specs[i], "locale": res[i]["r"]["locales"][j],
+                                      "impl": readable(canon)[:1500], "model": readable(mo)[:1500] if mo.startswith("ok|") else mo[:300]})
+    # ---- directed and fault-injected configuration texts: exceptions, path resolution, inheritance, filters, same()
+    raws = TCF.directed_cases() + fault_cases(ctx.rng("c13.faults"), ctx.n(250, 4000))
+    out.count("toml.directed", len(TCF.directed_cases()))
+    out.count("toml.fault-injected", len(raws) - len(TCF.directed_cases()))
+    rres = pool.pmap("impl.tomlcfg", "run_raw", [[c] for c in raws], timeout=30.0, batch=8)
+    okr = [(c, r["r"]) for c, r in zip(raws, rres) if "r" in r]
+    for c, r in zip(raws, rres):
+        if "r" not in r:
+            out.violations.append({"what": "harness adapter raised %s: %s %s" % (r.get("exc"), r.get("msg"), r.get("where")),
+                                   "input": {"raw": c}, "finding": None})
+    dmodel = C.run_driver_parallel([r["line"] for _, r in okr]) if ctx.model_ok else [None] * len(okr)
+    same_cases = [(c, r) for c, r in okr if "same_line" in r]
+    smodel = C.run_driver_parallel([r["same_line"] for _, r in same_cases]) if ctx.model_ok else [None] * len(same_cases)
+    for (c, r), mo in zip(okr, dmodel):
+        out.evaluations += 1
+        canon = r["impl"]
+        out.count("toml.raw." + (canon.split(" ")[0] if canon.startswith("err:") else "ok"))
+        out.nontrivial.add(hashlib.sha1(("R" + canon).encode()).hexdigest()[:16])
+        if r["violations"]:
+            out.violations.append({"what": r["violations"][0], "more": r["violations"][1:4], "count": len(r["violations"]),
+                                   "finding": None, "input": {"raw": c}})
+            out.count("oracle.unclassified")
+            continue
+        if mo is None:
+            continue
+        mo = mo.replace(r["root"], "@R@")
+        if mo.startswith("unsupported:"):
+            out.count("toml.skipped." + mo.split(":", 1)[1])
+            continue
+        if mo != canon:
+            out.disagreements.append({"op": "c13.toml.parse", "raw": c, "impl": TCF.canon_readable(canon)[:1500], "model": TCF.canon_readable(mo)[:1500]})
+    for (c, r), mo in zip(same_cases, smodel):
+        out.evaluations += 1
+        out.count("toml.same." + r["same_impl"])
+        if mo is not None and mo.replace(r["root"], "@R@") != r["same_impl"] and not r["violations"]:
+            out.disagreements.append({"op": "c13.toml.same", "raw": c, "impl": r["same_impl"], "model": mo})
+    # ---- the legacy l10n.ini route: EnumerateApp(...).asConfig() and the enumeration of that config
+    icases = INI.directed_ini() + [INI.gen_ini(ctx.rng("c13.ini")) for _ in range(ctx.n(120, 2500))]
+    out.count("ini.cases", len(icases))
+    ires = pool.pmap("impl.inicfg", "run_ini", [[c] for c in icases], timeout=30.0, batch=8)
+    iok = [(c, r["r"]) for c, r in zip(icases, ires) if "r" in r]
+    for c, r in zip(icases, ires):
+        if "r" not in r:
+            out.violations.append({"what": "harness adapter raised %s: %s %s" % (r.get("exc"), r.get("msg"), r.get("where")),
+                                   "input": {"ini": c}, "finding": None})
+    imodel = C.run_driver_parallel([r["line"] for _, r in iok]) if ctx.model_ok else [None] * len(iok)
+    irl = [(c, r, j) for c, r in iok for j in range(len(r["rlines"]))]
+    irmodel = C.run_driver_parallel([r["rlines"][j] for _, r, j in irl]) if ctx.model_ok else [None] * len(irl)
+    ibad = set()
+    for k, ((c, r), mo) in enumerate(zip(iok, imodel)):
+        out.evaluations += 1
+        canon = r["impl"]
+        out.count("ini.config." + (canon.split(" ")[0] if canon.startswith("err:") else "ok"))
+        out.nontrivial.add(hashlib.sha1(("I" + canon).encode()).hexdigest()[:16])
+        if r["violations"]:
+            ibad.add(id(r))
+            out.violations.append({"what": r["violations"][0], "more": r["violations"][1:4], "count": len(r["violations"]),
+                                   "finding": None, "input": {"ini": c}})
+            out.count("oracle.unclassified")
+            continue
+        if mo is not None and mo.replace(r["root"], "@R@") != canon:
+            ibad.add(id(r))
+            out.disagreements.append({"op": "c13.ini.config", "ini": c, "impl": TCF.canon_readable(canon)[:1500],
+                                      "model": TCF.canon_readable(mo.replace(r["root"], "@R@"))[:1500]})
+    for (c, r, j), mo in zip(irl, irmodel):
+        out.evaluations += 1
+        out.count("ini.run.compared")
+        if mo is not None and mo != r["rimpl"][j] and id(r) not in ibad:
+            ibad.add(id(r))
+            out.disagreements.append({"op": "c13.ini.run", "ini": c, "locale": r["locales"][j], "impl": readable(r["rimpl"][j])[:1200],
+                                      "model": readable(mo)[:1200] if mo.startswith("ok|") else mo[:300]})
     # replays keep the first 20 violations: lead with one case of every root cause
     lead, rest, seen = [], [], set()
     for v in out.violations:
@@ -427,6 +705,18 @@ def run(ctx):
 def replay(payload):
     res = []
     for v in payload.get("violations", []):
+        ini = v.get("input", {}).get("ini")
+        if ini:
+            r = pool.pmap("impl.inicfg", "run_ini", [[ini]], timeout=30.0)[0]
+            vs = [{"what": w} for w in r.get("r", {}).get("violations", ["adapter failed: %r" % r])]
+            res.append({"violations": vs[:6], "inis": ini["inis"], "files": ini["files"]})
+            continue
+        raw = v.get("input", {}).get("raw")
+        if raw:
+            r = pool.pmap("impl.tomlcfg", "run_raw", [[raw]], timeout=30.0)[0]
+            vs = [{"what": w} for w in r.get("r", {}).get("violations", ["adapter failed: %r" % r])]
+            res.append({"violations": vs[:6], "files": raw["files"]})
+            continue
         spec = v.get("input", {}).get("spec")
         if not spec:
             continue
